@@ -190,6 +190,10 @@ class mapper(object):
         n = self.__map.lastw
         try:
             i = K.index(k.a)
+            # the explicit write at k.a hides the earlier writes only
+            # if it covers all of k:
+            if self.__map[k.a].size < k.size:
+                i = -1
         except ValueError:
             # k has never been written to explicitly
             # but it is maybe in a zone that was written to
